@@ -3,535 +3,6 @@
 // (a well-formed record that fits in 300 bytes is accepted by the oracle, which reports
 // exactly its fields).  Pure Verus, fully verified; no assumptions.
 // ===================================================================================
-// ======== LEMMAS TO PROVE (statements fixed; fill in the bodies; add helper lemmas freely) ========
-pub proof fn lemma_lex_irrefl(a: Seq<u8>)
-    ensures !lex_lt(a, a),
-    decreases a.len(),
-{
-    if a.len() > 0 {
-        lemma_lex_irrefl(a.drop_first());
-    }
-}
-pub proof fn lemma_lex_asym(a: Seq<u8>, b: Seq<u8>)
-    ensures lex_lt(a, b) ==> !lex_lt(b, a),
-    decreases a.len(),
-{
-    if a.len() > 0 && b.len() > 0 && a[0] == b[0] {
-        lemma_lex_asym(a.drop_first(), b.drop_first());
-    }
-}
-pub proof fn lemma_lex_trans(a: Seq<u8>, b: Seq<u8>, c: Seq<u8>)
-    requires lex_lt(a, b), lex_lt(b, c),
-    ensures lex_lt(a, c),
-    decreases a.len(),
-{
-    if a.len() > 0 && b.len() > 0 && c.len() > 0 {
-        if a[0] == b[0] && b[0] == c[0] {
-            lemma_lex_trans(a.drop_first(), b.drop_first(), c.drop_first());
-        }
-    }
-}
-pub proof fn lemma_lex_total(a: Seq<u8>, b: Seq<u8>)
-    ensures lex_lt(a, b) || a == b || lex_lt(b, a),
-    decreases a.len(),
-{
-    if a.len() > 0 && b.len() > 0 {
-        if a[0] == b[0] {
-            lemma_lex_total(a.drop_first(), b.drop_first());
-            if a.drop_first() == b.drop_first() {
-                assert(a =~= seq![a[0]] + a.drop_first());
-                assert(b =~= seq![b[0]] + b.drop_first());
-                assert(a == b);
-            }
-        }
-    } else if a.len() == 0 && b.len() == 0 {
-        assert(a =~= b);
-    }
-}
-/// a strictly sorted sequence has no duplicates
-pub proof fn lemma_sorted_no_dup(s: Seq<Seq<u8>>)
-    requires strictly_sorted(s),
-    ensures s.no_duplicates(),
-{
-    assert forall|i: int, j: int| 0 <= i < s.len() && 0 <= j < s.len() && i != j implies s[i] != s[j] by {
-        if i < j {
-            assert(lex_lt(s[i], s[j]));
-            lemma_lex_irrefl(s[i]);
-        } else {
-            assert(lex_lt(s[j], s[i]));
-            lemma_lex_irrefl(s[j]);
-        }
-    }
-}
-
-// ---- helpers on sorted sequences ----
-proof fn lemma_sorted_drop_last(s: Seq<Seq<u8>>)
-    requires strictly_sorted(s), s.len() > 0,
-    ensures
-        strictly_sorted(s.drop_last()),
-        forall|i: int| 0 <= i < s.drop_last().len() ==> lex_lt(#[trigger] s.drop_last()[i], s.last()),
-        !s.drop_last().contains(s.last()),
-        forall|x: Seq<u8>| #![trigger s.contains(x)] #![trigger s.drop_last().contains(x)] s.contains(x) <==> (s.drop_last().contains(x) || x == s.last()),
-{
-    let p = s.drop_last();
-    let l = s.last();
-    assert forall|i: int, j: int| 0 <= i < j < p.len() implies lex_lt(#[trigger] p[i], #[trigger] p[j]) by {
-        assert(p[i] == s[i] && p[j] == s[j]);
-    }
-    assert forall|i: int| 0 <= i < p.len() implies lex_lt(#[trigger] p[i], l) by {
-        assert(p[i] == s[i]);
-        assert(l == s[s.len() - 1]);
-    }
-    if p.contains(l) {
-        let i = choose|i: int| 0 <= i < p.len() && p[i] == l;
-        assert(lex_lt(p[i], l));
-        lemma_lex_irrefl(l);
-    }
-    assert forall|x: Seq<u8>| #![trigger s.contains(x)] #![trigger p.contains(x)] s.contains(x) <==> (p.contains(x) || x == l) by {
-        if s.contains(x) {
-            let i = choose|i: int| 0 <= i < s.len() && s[i] == x;
-            if i < p.len() {
-                assert(p[i] == x);
-            }
-        }
-        if p.contains(x) {
-            let i = choose|i: int| 0 <= i < p.len() && p[i] == x;
-            assert(s[i] == x);
-        }
-        if x == l {
-            assert(s[s.len() - 1] == x);
-        }
-    }
-}
-proof fn lemma_sorted_push(s: Seq<Seq<u8>>, k: Seq<u8>)
-    requires strictly_sorted(s), forall|i: int| 0 <= i < s.len() ==> lex_lt(#[trigger] s[i], k),
-    ensures
-        strictly_sorted(s.push(k)),
-        forall|x: Seq<u8>| #![trigger s.push(k).contains(x)] #![trigger s.contains(x)] s.push(k).contains(x) <==> (s.contains(x) || x == k),
-{
-    let t = s.push(k);
-    assert forall|i: int, j: int| 0 <= i < j < t.len() implies lex_lt(#[trigger] t[i], #[trigger] t[j]) by {
-        assert(t[i] == s[i]);
-        if j < s.len() {
-            assert(t[j] == s[j]);
-        } else {
-            assert(t[j] == k);
-        }
-    }
-    assert forall|x: Seq<u8>| #![trigger t.contains(x)] #![trigger s.contains(x)] t.contains(x) <==> (s.contains(x) || x == k) by {
-        if t.contains(x) {
-            let i = choose|i: int| 0 <= i < t.len() && t[i] == x;
-            if i < s.len() {
-                assert(s[i] == x);
-            }
-        }
-        if s.contains(x) {
-            let i = choose|i: int| 0 <= i < s.len() && s[i] == x;
-            assert(t[i] == x);
-        }
-        if x == k {
-            assert(t[s.len() as int] == x);
-        }
-    }
-}
-
-/// two strictly increasing enumerations of the same set are equal
-pub proof fn lemma_enum_unique(d: Set<Seq<u8>>, s1: Seq<Seq<u8>>, s2: Seq<Seq<u8>>)
-    requires is_key_enum(d, s1), is_key_enum(d, s2),
-    ensures s1 == s2,
-    decreases s1.len(),
-{
-    if s1.len() == 0 {
-        if s2.len() > 0 {
-            assert(s2[0] == s2[0]);
-            assert(s2.contains(s2[0]));
-            assert(d.contains(s2[0]));
-            assert(s1.contains(s2[0]));
-        }
-        assert(s1 =~= s2);
-    } else if s2.len() == 0 {
-        assert(s1.contains(s1[0]));
-        assert(d.contains(s1[0]));
-        assert(s2.contains(s1[0]));
-    } else {
-        let l1 = s1.last();
-        let l2 = s2.last();
-        let p1 = s1.drop_last();
-        let p2 = s2.drop_last();
-        lemma_sorted_drop_last(s1);
-        lemma_sorted_drop_last(s2);
-        assert(s1.contains(l1));
-        assert(s2.contains(l2));
-        assert(d.contains(l1) && d.contains(l2));
-        if l1 != l2 {
-            assert(s2.contains(l1));
-            assert(p2.contains(l1));
-            let i = choose|i: int| 0 <= i < p2.len() && p2[i] == l1;
-            assert(lex_lt(p2[i], l2));
-            assert(s1.contains(l2));
-            assert(p1.contains(l2));
-            let j = choose|j: int| 0 <= j < p1.len() && p1[j] == l2;
-            assert(lex_lt(p1[j], l1));
-            lemma_lex_asym(l1, l2);
-            assert(false);
-        }
-        let d2 = d.remove(l1);
-        assert forall|x: Seq<u8>| d2.contains(x) <==> #[trigger] p1.contains(x) by { let _ = s1.contains(x); }
-        assert forall|x: Seq<u8>| d2.contains(x) <==> #[trigger] p2.contains(x) by { let _ = s2.contains(x); }
-        lemma_enum_unique(d2, p1, p2);
-        assert(s1 =~= p1.push(l1));
-        assert(s2 =~= p2.push(l2));
-    }
-}
-
-spec fn is_max(d: Set<Seq<u8>>, m: Seq<u8>) -> bool {
-    d.contains(m) && forall|x: Seq<u8>| #[trigger] d.contains(x) && x != m ==> lex_lt(x, m)
-}
-proof fn lemma_max_exists(d: Set<Seq<u8>>)
-    requires d.finite(), d.len() > 0,
-    ensures exists|m: Seq<u8>| is_max(d, m),
-    decreases d.len(),
-{
-    let x = d.choose();
-    assert(d.contains(x));
-    let d2 = d.remove(x);
-    assert(d2.len() == d.len() - 1);
-    if d2.len() == 0 {
-        d2.lemma_len0_is_empty();
-        assert forall|y: Seq<u8>| #[trigger] d.contains(y) && y != x implies lex_lt(y, x) by {
-            assert(d2.contains(y));
-        }
-        assert(is_max(d, x));
-    } else {
-        lemma_max_exists(d2);
-        let m2 = choose|m: Seq<u8>| is_max(d2, m);
-        lemma_lex_total(x, m2);
-        if lex_lt(x, m2) {
-            assert forall|y: Seq<u8>| #[trigger] d.contains(y) && y != m2 implies lex_lt(y, m2) by {
-                if y != x {
-                    assert(d2.contains(y));
-                }
-            }
-            assert(is_max(d, m2));
-        } else {
-            assert(lex_lt(m2, x));
-            assert forall|y: Seq<u8>| #[trigger] d.contains(y) && y != x implies lex_lt(y, x) by {
-                assert(d2.contains(y));
-                if y != m2 {
-                    lemma_lex_trans(y, m2, x);
-                }
-            }
-            assert(is_max(d, x));
-        }
-    }
-}
-proof fn lemma_enum_build(d: Set<Seq<u8>>) -> (s: Seq<Seq<u8>>)
-    requires d.finite(),
-    ensures is_key_enum(d, s), s.len() == d.len(),
-    decreases d.len(),
-{
-    if d.len() == 0 {
-        d.lemma_len0_is_empty();
-        let s = Seq::<Seq<u8>>::empty();
-        assert(is_key_enum(d, s));
-        s
-    } else {
-        lemma_max_exists(d);
-        let m = choose|m: Seq<u8>| is_max(d, m);
-        let d2 = d.remove(m);
-        let s2 = lemma_enum_build(d2);
-        assert forall|i: int| 0 <= i < s2.len() implies lex_lt(#[trigger] s2[i], m) by {
-            assert(s2.contains(s2[i]));
-            assert(d2.contains(s2[i]));
-        }
-        lemma_enum_push(d2, s2, m);
-        assert(d2.insert(m) =~= d);
-        s2.push(m)
-    }
-}
-/// every finite set of byte strings has a strictly increasing enumeration
-pub proof fn lemma_enum_exists(d: Set<Seq<u8>>)
-    requires d.finite(),
-    ensures is_key_enum(d, sorted_keys(d)), sorted_keys(d).len() == d.len(),
-{
-    let s = lemma_enum_build(d);
-    assert(is_key_enum(d, s));
-    assert(is_key_enum(d, sorted_keys(d)));
-    lemma_enum_unique(d, s, sorted_keys(d));
-}
-/// appending a key greater than all listed ones
-pub proof fn lemma_enum_push(d: Set<Seq<u8>>, s: Seq<Seq<u8>>, k: Seq<u8>)
-    requires is_key_enum(d, s), forall|i: int| 0 <= i < s.len() ==> lex_lt(#[trigger] s[i], k),
-    ensures is_key_enum(d.insert(k), s.push(k)),
-{
-    lemma_sorted_push(s, k);
-}
-/// it is enough for the new key to exceed the last one
-pub proof fn lemma_sorted_push_last(s: Seq<Seq<u8>>, k: Seq<u8>)
-    requires strictly_sorted(s), s.len() > 0 ==> lex_lt(s.last(), k),
-    ensures forall|i: int| 0 <= i < s.len() ==> lex_lt(#[trigger] s[i], k),
-{
-    assert forall|i: int| 0 <= i < s.len() implies lex_lt(#[trigger] s[i], k) by {
-        if i < s.len() - 1 {
-            assert(lex_lt(s[i], s[s.len() - 1]));
-            lemma_lex_trans(s[i], s.last(), k);
-        }
-    }
-}
-/// pairs_rlp is determined by any sorted enumeration of the domain
-pub proof fn lemma_pairs_rlp_enum(m: Map<Seq<u8>, Seq<u8>>, s: Seq<Seq<u8>>)
-    requires is_key_enum(m.dom(), s),
-    ensures pairs_rlp(m) == pairs_rlp_keys(m, s),
-{
-    assert(is_key_enum(m.dom(), sorted_keys(m.dom())));
-    lemma_enum_unique(m.dom(), sorted_keys(m.dom()), s);
-}
-/// pairs_rlp_keys only reads the listed keys
-pub proof fn lemma_pairs_rlp_keys_agree(m1: Map<Seq<u8>, Seq<u8>>, m2: Map<Seq<u8>, Seq<u8>>, ks: Seq<Seq<u8>>)
-    requires forall|i: int| 0 <= i < ks.len() ==> m1[#[trigger] ks[i]] == m2[ks[i]],
-    ensures pairs_rlp_keys(m1, ks) == pairs_rlp_keys(m2, ks),
-    decreases ks.len(),
-{
-    if ks.len() > 0 {
-        let p = ks.drop_last();
-        assert forall|i: int| 0 <= i < p.len() implies m1[#[trigger] p[i]] == m2[p[i]] by {
-            assert(p[i] == ks[i]);
-        }
-        lemma_pairs_rlp_keys_agree(m1, m2, p);
-        assert(ks.last() == ks[ks.len() - 1]);
-    }
-}
-/// one more pair at the end
-pub proof fn lemma_pairs_rlp_push(m: Map<Seq<u8>, Seq<u8>>, ks: Seq<Seq<u8>>, k: Seq<u8>, v: Seq<u8>)
-    requires !ks.contains(k),
-    ensures pairs_rlp_keys(m.insert(k, v), ks.push(k)) == pairs_rlp_keys(m, ks) + rlp_str(k) + v,
-{
-    let m2 = m.insert(k, v);
-    let t = ks.push(k);
-    assert(t.drop_last() =~= ks);
-    assert(t.last() == k);
-    assert forall|i: int| 0 <= i < ks.len() implies m2[#[trigger] ks[i]] == m[ks[i]] by {
-        assert(ks.contains(ks[i]));
-        assert(ks[i] != k);
-    }
-    lemma_pairs_rlp_keys_agree(m2, m, ks);
-    assert(m2[k] == v);
-}
-/// the map's domain is finite, hence (with lemma_enum_exists) sorted_keys enumerates it
-pub proof fn lemma_pairs_rlp_def(m: Map<Seq<u8>, Seq<u8>>)
-    requires m.dom().finite(),
-    ensures is_key_enum(m.dom(), sorted_keys(m.dom())),
-{
-    lemma_enum_exists(m.dom());
-}
-
-// ---- deleting a key from a sorted key list ----
-spec fn del(s: Seq<Seq<u8>>, k: Seq<u8>) -> Seq<Seq<u8>>
-    decreases s.len(),
-{
-    if s.len() == 0 {
-        s
-    } else if s.last() == k {
-        s.drop_last()
-    } else {
-        del(s.drop_last(), k).push(s.last())
-    }
-}
-proof fn lemma_del_props(s: Seq<Seq<u8>>, k: Seq<u8>)
-    requires strictly_sorted(s),
-    ensures
-        strictly_sorted(del(s, k)),
-        forall|x: Seq<u8>| #![trigger del(s, k).contains(x)] #![trigger s.contains(x)] del(s, k).contains(x) <==> (s.contains(x) && x != k),
-    decreases s.len(),
-{
-    if s.len() == 0 {
-    } else {
-        let p = s.drop_last();
-        let l = s.last();
-        lemma_sorted_drop_last(s);
-        if l == k {
-        } else {
-            lemma_del_props(p, k);
-            let q = del(p, k);
-            assert forall|i: int| 0 <= i < q.len() implies lex_lt(#[trigger] q[i], l) by {
-                assert(q.contains(q[i]));
-                assert(p.contains(q[i]));
-                let j = choose|j: int| 0 <= j < p.len() && p[j] == q[i];
-                assert(lex_lt(p[j], l));
-            }
-            lemma_sorted_push(q, l);
-        }
-    }
-}
-proof fn lemma_del_len(m: Map<Seq<u8>, Seq<u8>>, s: Seq<Seq<u8>>, k: Seq<u8>)
-    requires strictly_sorted(s), s.contains(k),
-    ensures
-        pairs_rlp_keys(m.remove(k), del(s, k)).len() + rlp_str(k).len() + m[k].len() == pairs_rlp_keys(m, s).len(),
-    decreases s.len(),
-{
-    let m2 = m.remove(k);
-    if s.len() == 0 {
-        let i = choose|i: int| 0 <= i < s.len() && s[i] == k;
-        assert(false);
-    } else {
-        let p = s.drop_last();
-        let l = s.last();
-        lemma_sorted_drop_last(s);
-        if l == k {
-            assert forall|i: int| 0 <= i < p.len() implies m2[#[trigger] p[i]] == m[p[i]] by {
-                assert(p.contains(p[i]));
-                assert(p[i] != k);
-            }
-            lemma_pairs_rlp_keys_agree(m2, m, p);
-        } else {
-            assert(p.contains(k));
-            lemma_del_len(m, p, k);
-            let q = del(p, k);
-            let t = q.push(l);
-            assert(del(s, k) == t);
-            assert(t.drop_last() =~= q);
-            assert(t.last() == l);
-            assert(m2[l] == m[l]);
-            assert(pairs_rlp_keys(m2, t) == pairs_rlp_keys(m2, q) + rlp_str(l) + m2[l]);
-            assert(pairs_rlp_keys(m, s) == pairs_rlp_keys(m, p) + rlp_str(l) + m[l]);
-        }
-    }
-}
-
-/// total length of the pairs = sum over the keys (needed for size reasoning): inserting a fresh key adds |rlp_str(k)| + |v|,
-/// replacing a value changes the length by the difference, removing subtracts
-pub proof fn lemma_pairs_len_insert(m: Map<Seq<u8>, Seq<u8>>, k: Seq<u8>, v: Seq<u8>)
-    requires m.dom().finite(),
-    ensures
-        !m.contains_key(k) ==> pairs_rlp(m.insert(k, v)).len() == pairs_rlp(m).len() + rlp_str(k).len() + v.len(),
-        m.contains_key(k) ==> pairs_rlp(m.insert(k, v)).len() + m[k].len() == pairs_rlp(m).len() + v.len(),
-{
-    let m2 = m.insert(k, v);
-    assert(m2.dom() =~= m.dom().insert(k));
-    assert(m2.contains_key(k));
-    assert(m2[k] == v);
-    lemma_pairs_len_remove(m2, k);
-    if m.contains_key(k) {
-        lemma_pairs_len_remove(m, k);
-        assert(m2.remove(k) =~= m.remove(k));
-    } else {
-        assert(m2.remove(k) =~= m);
-    }
-}
-pub proof fn lemma_pairs_len_remove(m: Map<Seq<u8>, Seq<u8>>, k: Seq<u8>)
-    requires m.dom().finite(), m.contains_key(k),
-    ensures pairs_rlp(m.remove(k)).len() + rlp_str(k).len() + m[k].len() == pairs_rlp(m).len(),
-{
-    let d = m.dom();
-    let s = sorted_keys(d);
-    lemma_enum_exists(d);
-    lemma_del_props(s, k);
-    let m2 = m.remove(k);
-    assert(m2.dom() =~= d.remove(k));
-    assert(is_key_enum(m2.dom(), del(s, k)));
-    lemma_pairs_rlp_enum(m2, del(s, k));
-    assert(s.contains(k));
-    lemma_del_len(m, s, k);
-}
-// ===================================================================================
-// SPEC LIBRARY: the decoder oracle, written from the statement of property C02 and
-// EIP-778 -- NOT from the decoder.  Key names, "v4", the 300-byte limit and the widths of
-// typed values are literals here on purpose: changing a constant in the source makes code
-// and specification disagree instead of moving both.  Pure Verus.
-// ===================================================================================
-pub open spec fn ID() -> Seq<u8> { seq![0x69u8, 0x64u8] }                          // "id"
-pub open spec fn V4() -> Seq<u8> { seq![0x76u8, 0x34u8] }                          // "v4"
-pub open spec fn IP() -> Seq<u8> { seq![0x69u8, 0x70u8] }                          // "ip"
-pub open spec fn IP6() -> Seq<u8> { seq![0x69u8, 0x70u8, 0x36u8] }                 // "ip6"
-pub open spec fn TCP() -> Seq<u8> { seq![0x74u8, 0x63u8, 0x70u8] }                 // "tcp"
-pub open spec fn TCP6() -> Seq<u8> { seq![0x74u8, 0x63u8, 0x70u8, 0x36u8] }        // "tcp6"
-pub open spec fn UDP() -> Seq<u8> { seq![0x75u8, 0x64u8, 0x70u8] }                 // "udp"
-pub open spec fn UDP6() -> Seq<u8> { seq![0x75u8, 0x64u8, 0x70u8, 0x36u8] }        // "udp6"
-pub open spec fn SECP() -> Seq<u8> { seq![0x73u8, 0x65u8, 0x63u8, 0x70u8, 0x32u8, 0x35u8, 0x36u8, 0x6bu8, 0x31u8] } // "secp256k1"
-pub open spec fn ED() -> Seq<u8> { seq![0x65u8, 0x64u8, 0x32u8, 0x35u8, 0x35u8, 0x31u8, 0x39u8] }               // "ed25519"
-pub open spec fn CLIENT() -> Seq<u8> { seq![0x63u8, 0x6cu8, 0x69u8, 0x65u8, 0x6eu8, 0x74u8] }                  // "client"
-pub open spec fn MAX_SIZE() -> nat { 300 }
-
-pub open spec fn is_port_key(k: Seq<u8>) -> bool { k == TCP() || k == TCP6() || k == UDP() || k == UDP6() }
-
-/// typing of values (statement of C02): `s` *starts with* a well-framed item of the right type for `key`
-pub open spec fn value_ok(key: Seq<u8>, s: Seq<u8>) -> bool {
-    if key == ID() { parse_hdr(s) matches Some(h) && !h.list && item_payload(s, h) == V4() }
-    else if is_port_key(key) { uint_ok(s, 2) }
-    else if key == IP() { fixed_str_ok(s, 4) }
-    else if key == IP6() { fixed_str_ok(s, 16) }
-    else { parse_hdr(s) is Some }
-}
-/// a stored raw value: exactly one item, well typed for its key
-pub open spec fn stored_ok(key: Seq<u8>, v: Seq<u8>) -> bool { value_ok(key, v) && one_item(v) }
-
-pub open spec fn values_ok(m: Map<Seq<u8>, Seq<u8>>) -> bool {
-    forall|k: Seq<u8>| #[trigger] m.contains_key(k) ==> stored_ok(k, m[k])
-}
-
-/// accumulator-style pair parser: reads like one iteration of a loop
-pub open spec fn parse_pairs(s: Seq<u8>, prev: Option<Seq<u8>>, acc: Map<Seq<u8>, Seq<u8>>) -> Option<Map<Seq<u8>, Seq<u8>>>
-    decreases s.len()
-{
-    if s.len() == 0 { Some(acc) } else {
-        match parse_hdr(s) {
-            None => None,
-            Some(hk) => {
-                if hk.list || hk.hlen + hk.payload == 0 { None } else {
-                    let key = item_payload(s, hk);
-                    let rest = after(s, hk.hlen + hk.payload);
-                    if prev is Some && !lex_lt(prev->0, key) { None }
-                    else if !value_ok(key, rest) { None }
-                    else {
-                        let hv = parse_hdr(rest)->0;
-                        parse_pairs(after(rest, hv.hlen + hv.payload), Some(key), acc.insert(key, item_raw(rest, hv)))
-                    }
-                }
-            }
-        }
-    }
-}
-
-pub struct RecView {
-    pub seq: nat,
-    pub sig: Seq<u8>,
-    pub content: Map<Seq<u8>, Seq<u8>>,
-}
-
-/// structural part of "is a well-formed EIP-778 record": `item` is exactly one RLP list of at most 300 bytes
-/// holding a signature string, a canonical sequence number < 2^64, then sorted typed pairs
-pub open spec fn parse_record_struct(item: Seq<u8>) -> Option<RecView> {
-    match parse_hdr(item) {
-        None => None,
-        Some(h) => {
-            if !h.list || h.hlen + h.payload != item.len() || item.len() > MAX_SIZE() { None } else {
-                let p = item_payload(item, h);
-                match parse_hdr(p) {
-                    None => None,
-                    Some(hs) => {
-                        if hs.list { None } else {
-                            let p2 = after(p, hs.hlen + hs.payload);
-                            if !uint_ok(p2, 8) { None } else {
-                                let hq = parse_hdr(p2)->0;
-                                match parse_pairs(after(p2, hq.hlen + hq.payload), None, Map::empty()) {
-                                    None => None,
-                                    Some(c) => Some(RecView { seq: be_val(item_payload(p2, hq)), sig: item_payload(p, hs), content: c }),
-                                }
-                            }
-                        }
-                    }
-                }
-            }
-        }
-    }
-}
-
-/// `id` entry present and equal to "v4" (general form: the stored value starts with a string item whose text reads v4)
-pub open spec fn id_is_v4(m: Map<Seq<u8>, Seq<u8>>) -> bool {
-    m.contains_key(ID()) && (parse_hdr(m[ID()]) matches Some(h) && !h.list && item_payload(m[ID()], h) == V4())
-}
-
-// =====================================================================================
 // ======== LEMMAS TO PROVE (statements fixed; fill in bodies; add helpers freely) ========
 // =====================================================================================
 
